@@ -100,6 +100,7 @@ func (t *tcpHandler) handleConn(connSt *connInfo, pkg []byte) {
 
 func (t *tcpHandler) Handle() error {
 	cfg := t.config
+	var recvDone sync.WaitGroup
 	for {
 		if atomic.LoadInt32(&t.server.isClosed) == 1 {
 			TLOG.Errorf("Close accept %s %d", t.config.Address, os.Getpid())
@@ -126,7 +127,9 @@ func (t *tcpHandler) Handle() error {
 			continue
 		}
 		atomic.AddInt32(&t.server.numConn, 1)
+		recvDone.Add(1)
 		go func(conn net.Conn) {
+			defer recvDone.Done()
 			key := conn.RemoteAddr().String()
 			switch c := conn.(type) {
 			case *net.TCPConn:
@@ -144,6 +147,9 @@ func (t *tcpHandler) Handle() error {
 		}(conn)
 	}
 	if t.pool != nil {
+		// requests already read may still wait in the pool's JobQueue: every receive loop returns
+		// only after its requests are answered, release the workers after that
+		recvDone.Wait()
 		t.pool.Release()
 	}
 	return nil
